@@ -245,6 +245,14 @@ def run(ctx: Ctx):
     from .c13 import missing_values_discipline
 
     missing_values_discipline(ctx, "R03.c")
+    ctx.rule("R03.f", "the functions of the jax module share the slot layout, the liveness computation and the Rush-Larsen guard decision with the NumPy backend: slot families (state / parameter / monitor) agree between the index functions and the functions that fill the arrays, what remove_unused may drop is `name in ODE.dependents()`, and the zero-division guard is elided only when the linearisation is provably non-zero (jax evaluates 0/0 to nan)", floor=20)
+    from .c04 import slot_families
+    from .c06 import check_elision
+    from .c12 import liveness_rules
+
+    slot_families(ctx, "R03.f", floor=False)
+    liveness_rules(ctx, {"a": "R03.f", "b": "R03.f"}, declare=False)
+    check_elision(ctx, "R03.f")
     check_template_keywords(ctx, "R03.a")
     # the header of the generated module: jax with 64-bit floats enabled and nothing else that changes how it runs
     util.same_as_reference(
